@@ -44,7 +44,22 @@ func genAddress(r *hlib.Rng, loc common.Location) common.Address {
 	return common.BytesToAddress(genAddrBytes(r, loc, r.Chance(60), r.Chance(40)), loc)
 }
 
+// shapeMode biases every generated big integer / byte string of the objects built while it is set
+// (used by the ownership monitors): "zero" = every big integer 0 and every byte string empty (the
+// values for which a decoder is tempted to return a shared constant), "small" = the values of the
+// common.BigN constants, "" = the ordinary distribution.
+var shapeMode string
+
+var smallBigs = []int64{0, 1, 2, 3, 4, 7, 8, 10, 16, 32, 64, 96, 99, 100, 101, 256, 257, 480, 1024, 3072, 199680}
+
 func genBig(r *hlib.Rng) *big.Int {
+	switch shapeMode {
+	case "zero":
+		r.Next()
+		return big.NewInt(0)
+	case "small":
+		return big.NewInt(smallBigs[r.Intn(len(smallBigs))])
+	}
 	switch r.Pick(3, 3, 3, 2, 1) {
 	case 0:
 		return big.NewInt(0)
@@ -71,6 +86,12 @@ func genU64(r *hlib.Rng) uint64 {
 }
 
 func genData(r *hlib.Rng) []byte {
+	if shapeMode == "zero" {
+		if r.Bool() {
+			return nil
+		}
+		return []byte{}
+	}
 	switch r.Pick(2, 2, 5, 1) {
 	case 0:
 		return nil
